@@ -101,22 +101,25 @@ def drawing_of_builder_programs(k):
                   and all(n1[i]["in"] == n2[i]["in"] and n1[i]["out"] == n2[i]["out"] and n1[i]["cluster"] == n2[i]["cluster"] for i in n1))
 
 
-@lemma("C20", bounds="stores of root + 3 nodes with requested output counts 0..2 and one link plus an optional duplicate (quick) / <= 3 optional links (thorough) with endpoints / offsets (-1..1) chosen by the "
+@lemma("C20", params=[(0,), (1,), (2,), (3,)],
+       bounds="one task per source node of the first link (0: thorough only, first link absent); stores of root + 3 nodes with requested output counts 0..2 (node 1 symbolic)"
+                     " and one link plus an optional duplicate (quick) / <= 2 optional links plus an optional duplicate of the first (thorough) with endpoints / offsets (-1..1) chosen by the "
                      "solver (multi-links, order links, self-loops) on operations with 2 inputs and 2 outputs; metadata on a node or not; default palette",
-       outside="larger stores", opts={"max_paths": 100000, "timeout_s": 1500})
-def drawing_of_store_states():
+       outside="larger stores", opts={"max_paths": 400000, "timeout_s": 1500})
+def drawing_of_store_states(first_src):
     N = 4
-    links = store.sym_links(P(1, 3), N, max_off=1)
+    links = store.sym_links(P(1, 2), N, max_off=1)
+    if first_src == 0:
+        sym.assume(sym.not_(links[0].p))       # no first link (quick: a store without links)
+    else:
+        sym.assume(sym.and_(links[0].p, links[0].a == first_src))
     for l in links:
         for f in ("p", "a", "o", "b", "q"):
             setattr(l, f, sym.concretize(getattr(l, f)))
-    if P(True, False):
-        links[0].p = True
-        l0 = links[0]
+    l0 = links[0]
+    if l0.p:
         links.append(store.Link(sym.concretize(sym.bool("dup")), l0.a, l0.o, l0.b, l0.q))   # optional duplicate: multi-link
-        req = [None, sym.concretize(sym.int("req1", 0, 2)), 0, 2]
-    else:
-        req = [None] + [sym.concretize(sym.int(f"req{i}", 0, 2)) for i in range(1, N)]
+    req = [None, sym.concretize(sym.int("req1", 0, 2)), 0, 2]
     B2 = [tys.Bool, tys.Qubit]
     ops_list = [None, programs.cust("x<y>", B2, B2), programs.cust("y&z", B2, B2), programs.cust("z", B2, B2)]
     h, nodes = store.make_store(N, links, requested=req, ops_list=ops_list)
